@@ -149,6 +149,9 @@ pub struct TCase {
     pub log: bool,
     /// run through a clone of the configuration
     pub clone_config: bool,
+    /// the caller's state still holds counters and memories of an earlier run
+    #[serde(default)]
+    pub stale_state: bool,
 }
 
 impl TCase {
@@ -678,6 +681,7 @@ pub fn gen_case(g: &mut Gen, kind: Kind, o: &GenOpts) -> TCase {
         fault: TFault::None,
         log: o.log && g.chance(0.5),
         clone_config: false,
+        stale_state: false,
     }
 }
 
@@ -698,6 +702,9 @@ pub fn shrink_case(c: &TCase) -> Vec<TCase> {
     }
     if c.clone_config {
         out.push(TCase { clone_config: false, ..c.clone() });
+    }
+    if c.stale_state {
+        out.push(TCase { stale_state: false, ..c.clone() });
     }
     if let EvalMode::Parallel { workers, sched_seed, pct } = c.evaluator {
         if workers > 2 {
